@@ -132,6 +132,18 @@ Theorem C04_only_end_and_delete_end_the_thread :
 Proof. exact flow_end_only_by_command. Qed.
 Print Assumptions C04_only_end_and_delete_end_the_thread.
 
+(* deletion through nesting: a thread that calls, and waits for, a thread which destroys the
+   caller (1..3 calls deep; delete / remove / immediateremove; the call alone or inside an
+   expression) has ended - one printed line, no warning, the statement is cut and no later
+   statement runs *)
+Theorem C04_a_thread_deleted_by_its_callee_has_ended :
+  forall dbg d p,
+    kill_depth (Exact d) <> None ->
+    run dbg (SCmd CKill (Some (ELeaf d)) :: p) =
+    OCut (mkObs [] 1 FEnd) :: map (fun _ => OSkip) p.
+Proof. exact deleted_by_callee_ends_the_thread. Qed.
+Print Assumptions C04_a_thread_deleted_by_its_callee_has_ended.
+
 (* non-vacuity: a concrete program with a division by zero inside a nested expression, an
    incompatible operator whose NIL substitute flows into a comparison, an index out of range,
    a NULL receiver, a failing store, a thread call to an unknown label, a wait and the
